@@ -5,7 +5,7 @@ from vt.grammar import shipped_dialects, PARSER, LEXER
 from vt.model import walk_no_nested, norm, dotted_name, module_value, class_attr_value
 from vt.shapes import Sym, Tup
 from vt.runner import where, AnalysisError
-from rules import common
+from rules import common, ir
 from rules.C07 import _key_is
 from rules.C11 import lexer_model
 from rules.C17 import shapes, dialect, dialect_list
@@ -44,17 +44,17 @@ def path_conditions(node, fn):
     return list(reversed(out))
 
 
-def r1_number_classifier(chk):
+def r1_number_classifier(chk, rule='C05.R1'):
     model = chk.model
     lm = lexer_model(chk)
     mod = model.mod(LEXER)
     chk.unit(LEXER)
-    chk.doc('C05.R1', 't_NUMBER: value <= 2^32-1 keeps NUMBER / NEGATIVENUMBER, value <= 2^64-1 gives NUMBER64 / '
+    chk.doc(rule, 't_NUMBER: value <= 2^32-1 keeps NUMBER / NEGATIVENUMBER, value <= 2^64-1 gives NUMBER64 / '
                       'NEGATIVENUMBER64, anything larger raises; the limits are exactly 2^32-1 and 2^64-1')
     u32 = module_value(model, LEXER, 'UNSIGNED32_MAX')
     u64 = module_value(model, LEXER, 'UNSIGNED64_MAX')
-    chk.ob('C05.R1', 'UNSIGNED32_MAX', u32 == 2 ** 32 - 1, LEXER, 'UNSIGNED32_MAX = %r' % (u32,))
-    chk.ob('C05.R1', 'UNSIGNED64_MAX', u64 == 2 ** 64 - 1, LEXER, 'UNSIGNED64_MAX = %r' % (u64,))
+    chk.ob(rule, 'UNSIGNED32_MAX', u32 == 2 ** 32 - 1, LEXER, 'UNSIGNED32_MAX = %r' % (u32,))
+    chk.ob(rule, 'UNSIGNED64_MAX', u64 == 2 ** 64 - 1, LEXER, 'UNSIGNED64_MAX = %r' % (u64,))
     ci = model.cls(LEXER, 'SmiV2Lexer')
     o, fn = ci.find_method('t_NUMBER')
     chk.subject(fn, 'SmiV2Lexer.t_NUMBER')
@@ -70,7 +70,7 @@ def r1_number_classifier(chk):
             for s in st.body:
                 if isinstance(s, ast.Assign) and isinstance(s.targets[0], ast.Name) and norm(s.value) in ('1', 'True'):
                     sign = s.targets[0].id
-    chk.ob('C05.R1', 't_NUMBER/magnitude-and-sign', bool(mag and sign), where(mod, fn),
+    chk.ob(rule, 't_NUMBER/magnitude-and-sign', bool(mag and sign), where(mod, fn),
            'cannot find `abs(t.value)` / sign flag')
     if not (mag and sign):
         return
@@ -85,22 +85,22 @@ def r1_number_classifier(chk):
         'NUMBER64': ((t1, 'F'), (t2, 'T'), (sign, 'F')),
     }
     for typ, conds in sorted(want.items()):
-        chk.ob('C05.R1', 't_NUMBER/type %s' % typ, got.get(typ) == conds, where(mod, fn),
+        chk.ob(rule, 't_NUMBER/type %s' % typ, got.get(typ) == conds, where(mod, fn),
                'token type %s is assigned under %s, expected %s' % (typ, got.get(typ), conds))
     extra = sorted(set(got) - set(want))
-    chk.ob('C05.R1', 't_NUMBER/no-other-types', not extra, where(mod, fn), 'unexpected token types %s' % extra)
+    chk.ob(rule, 't_NUMBER/no-other-types', not extra, where(mod, fn), 'unexpected token types %s' % extra)
     rs = [x for x in walk_no_nested(fn) if isinstance(x, ast.Raise) and tuple(path_conditions(x, fn)) ==
           ((t1, 'F'), (t2, 'F'))]
-    chk.ob('C05.R1', 't_NUMBER/too-big-raises', len(rs) == 1, where(mod, fn), 'values above 2^64-1 must raise')
+    chk.ob(rule, 't_NUMBER/too-big-raises', len(rs) == 1, where(mod, fn), 'values above 2^64-1 must raise')
     rets = [x for x in walk_no_nested(fn) if isinstance(x, ast.Return)]
-    chk.ob('C05.R1', 't_NUMBER/returns-token', len(rets) == 1 and _key_is(rets[0].value, tok) and
+    chk.ob(rule, 't_NUMBER/returns-token', len(rets) == 1 and _key_is(rets[0].value, tok) and
            not path_conditions(rets[0], fn), where(mod, fn), 'the token must be returned on every non-raising path')
     # the regex accepts an optional minus and digits only
     r = [x for x in lm.rules['INITIAL'] if x.name == 't_NUMBER'][0]
-    chk.ob('C05.R1', 't_NUMBER/regex', r.pattern == '-?[0-9]+', LEXER, 'regex %r' % r.pattern)
+    chk.ob(rule, 't_NUMBER/regex', r.pattern == '-?[0-9]+', LEXER, 'regex %r' % r.pattern)
     for nm, pat in (('t_HEX_STRING', "\\'[0-9a-fA-F]*\\'[hH]"), ('t_BIN_STRING', "\\'[01]*\\'[bB]")):
         rr = [x for x in lm.rules['INITIAL'] if x.name == nm]
-        chk.ob('C05.R1', '%s/regex' % nm, bool(rr) and rr[0].pattern == pat, LEXER,
+        chk.ob(rule, '%s/regex' % nm, bool(rr) and rr[0].pattern == pat, LEXER,
                'regex %r' % (rr[0].pattern if rr else None))
 
 
@@ -494,5 +494,68 @@ def r9_syntax_productions(chk):
     chk.floor('C05.R9', 40, 'syntax productions')
 
 
+def r10_collectors(chk):
+    ci = chk.model.cls(INTER, 'IntermediateCodeGen')
+    ir.elementwise_collectors(chk, 'C05.R10', ci, ['genIntegerSubType', 'genOctetStringSubType'], 2)
+
+
+
+def r11_guard_slice_agreement(chk):
+    """`len(X) > N and X[a:-b] or default`: the guard must hold exactly when the slice is non-empty (N == a + b)"""
+    model = chk.model
+    chk.doc('C05.R11', 'where a length test guards a slice of the same literal (directly or through a local alias), '
+                       'the test is true exactly for the lengths that make the slice non-empty: len(X) > a+b for '
+                       'X[a:-b]; otherwise short literals silently become the default value')
+    n = 0
+    for rel in sorted(r for r in model.modules if r.startswith('pysmi/codegen/')):
+        mod = model.mod(rel)
+        for cnode in mod.classes():
+            ci = model.cls(rel, cnode.name)
+            for mname, fn in sorted(ci.methods.items()):
+                aliases = {}
+                for st in ast.walk(fn):
+                    if isinstance(st, ast.Assign) and len(st.targets) == 1 and isinstance(st.targets[0], ast.Name) and \
+                            isinstance(st.value, ast.Subscript) and isinstance(st.value.slice, ast.Slice):
+                        aliases.setdefault(st.targets[0].id, []).append(st.value)
+                for b in ast.walk(fn):
+                    guard = val = None
+                    if isinstance(b, ast.BoolOp) and isinstance(b.op, ast.And) and len(b.values) >= 2:
+                        guard, val = b.values[0], b.values[1]
+                    elif isinstance(b, ast.IfExp):
+                        guard, val = b.test, b.body
+                    if guard is None or not (isinstance(guard, ast.Compare) and len(guard.ops) == 1 and
+                                             isinstance(guard.left, ast.Call) and dotted_name(guard.left.func) == 'len'
+                                             and isinstance(guard.comparators[0], ast.Constant)):
+                        continue
+                    subj = norm(guard.left.args[0])
+                    if isinstance(val, ast.Name) and len(aliases.get(val.id, ())) == 1:
+                        val = aliases[val.id][0]
+                    if not (isinstance(val, ast.Subscript) and isinstance(val.slice, ast.Slice) and
+                            norm(val.value) == subj):
+                        continue
+                    lo, hi = val.slice.lower, val.slice.upper
+                    try:
+                        a = 0 if lo is None else ast.literal_eval(lo)
+                        bb = 0 if hi is None else -ast.literal_eval(hi)
+                    except Exception:
+                        continue
+                    if a < 0 or bb < 0:
+                        continue
+                    nconst = guard.comparators[0].value
+                    op = guard.ops[0]
+                    need = a + bb   # slice non-empty iff len > need
+                    if isinstance(op, ast.Gt):
+                        ok = nconst == need
+                    elif isinstance(op, ast.GtE):
+                        ok = nconst == need + 1
+                    else:
+                        ok = False
+                    n += 1
+                    chk.ob('C05.R11', '%s.%s/%s' % (ci.name, mname, norm(guard)), ok, where(mod, b),
+                           '%s is non-empty for len(%s) > %d but is used only when %s: literals in between become '
+                           'the default' % (norm(val), subj, need, norm(guard)))
+    chk.floor('C05.R11', 1, 'length-guarded slices')
+
+
 RULES = [r1_number_classifier, r2_value_alternatives, r3_literal_conversion, r4_ranges, r5_enum_bits,
-         r7_base_type_walk, r8_defval, r9_syntax_productions]
+         r7_base_type_walk, r8_defval, r9_syntax_productions, r10_collectors, r11_guard_slice_agreement]
